@@ -996,6 +996,51 @@ SUSPICIOUS = ['\n', '\r', '\t', '\x00', ' ', '_', '&', 'Ñ', 'ñ', 'Ä', 'ö', '
               'а', 'Α', 'é', '́', '‍', '﻿', '*', '+', '#', '@', '/', '\\', '%', "'", '"', '<', 'X', 'x', '0', '9', 'A', 'a', 'Z', '-', '.']
 
 
+_literal_cache = {}
+
+
+def literals(name):
+    """Short string constants of the module's source (prefixes, labels, magic values it compares against): the classic
+    fuzzing dictionary, harvested from the tree under test with ast (docstrings excluded)."""
+    if name in _literal_cache:
+        return _literal_cache[name]
+    import ast
+    import inspect
+    out = []
+    try:
+        tree = ast.parse(inspect.getsource(core.number_modules()[name]))
+    except Exception:  # noqa: B902
+        tree = None
+    if tree is not None:
+        doc = set()
+        for node in ast.walk(tree):
+            if isinstance(node, (ast.Module, ast.FunctionDef, ast.ClassDef)) and node.body and isinstance(node.body[0], ast.Expr) \
+                    and isinstance(getattr(node.body[0], 'value', None), ast.Constant):
+                doc.add(id(node.body[0].value))
+        for node in ast.walk(tree):
+            if isinstance(node, ast.Constant) and isinstance(node.value, str) and id(node) not in doc:
+                t = node.value
+                if 1 <= len(t) <= 8 and t.isalnum() and t.isascii() and t not in out:
+                    out.append(t)
+    _literal_cache[name] = out[:30]
+    return _literal_cache[name]
+
+
+def literal_probes(name):
+    """Texts that start with one of the module's own literals, continued with digits to a range of lengths, one hostile
+    character at each position behind the literal: reaches a branch guarded by a magic prefix and a length."""
+    digits = '0264359008172645'
+    for tok in literals(name):
+        if len(tok) < 2:
+            continue
+        for k in range(4, 13):
+            base = tok + digits[:k]
+            yield base
+            for pos in range(len(tok), len(base)):
+                for c in ('A', ' ', '\u0663', '-', '\n'):
+                    yield base[:pos] + c + base[pos + 1:]
+
+
 def long_text(maxlen):
     alphabet = st.sampled_from(['0', '1', '9', '0123456789', '0123456789ABCDEFGHIJKLMNOPQRSTUVWXYZ', 'A', ' 1', '1-'])
 
